@@ -1,6 +1,7 @@
 package main
 
 import (
+	"go/constant"
 	"fmt"
 	"go/token"
 	"strings"
@@ -396,26 +397,29 @@ func (a *A) rulePlaceholderPrivate() int {
 // mustPassUnder: does every path from fn's entry to a return execute an instruction accepted by pass,
 // when branches decided by assume follow only the decided edge and the edges accepted by excuse count
 // as passing? Returns the offending return, or nil.
-func mustPassUnder(fn *ssa.Function, pass func(ssa.Instruction) bool, assume func(v ssa.Value) Tri, excuse func(iff *ssa.If) (onTrue, onFalse bool)) ssa.Instruction {
+func mustPassUnder(fn *ssa.Function, pass func(ssa.Instruction) bool, assume func(v ssa.Value) Tri, excuse func(cond ssa.Value) (onTrue, onFalse bool)) ssa.Instruction {
 	type st struct {
-		b  *ssa.BasicBlock
-		ok bool
+		b, pred *ssa.BasicBlock
+		ok      bool
 	}
 	var eval func(v ssa.Value) Tri
 	eval = func(v ssa.Value) Tri {
 		if u, ok := v.(*ssa.UnOp); ok && u.Op == token.NOT {
 			return eval(u.X).not()
 		}
+		if k, ok := v.(*ssa.Const); ok && k.Value != nil && k.Value.Kind() == constant.Bool {
+			return tri(constant.BoolVal(k.Value))
+		}
 		return assume(v)
 	}
 	seen := map[st]bool{}
 	var bad ssa.Instruction
-	var dfs func(b *ssa.BasicBlock, ok bool)
-	dfs = func(b *ssa.BasicBlock, ok bool) {
-		if bad != nil || seen[st{b, ok}] {
+	var dfs func(b, pred *ssa.BasicBlock, ok bool)
+	dfs = func(b, pred *ssa.BasicBlock, ok bool) {
+		if bad != nil || seen[st{b, pred, ok}] {
 			return
 		}
-		seen[st{b, ok}] = true
+		seen[st{b, pred, ok}] = true
 		for _, in := range b.Instrs {
 			if pass(in) {
 				ok = true
@@ -426,23 +430,50 @@ func mustPassUnder(fn *ssa.Function, pass func(ssa.Instruction) bool, assume fun
 			}
 		}
 		if iff, isIf := b.Instrs[len(b.Instrs)-1].(*ssa.If); isIf {
-			onT, onF := excuse(iff)
-			switch eval(iff.Cond) {
+			// a named boolean (`c := A && B; if c {`) arrives as a phi of this block: on this path it is
+			// the value contributed by the edge the path came in by
+			cond, neg := iff.Cond, false
+			for {
+				if u, ok := cond.(*ssa.UnOp); ok && u.Op == token.NOT {
+					cond, neg = u.X, !neg
+					continue
+				}
+				if phi, ok := cond.(*ssa.Phi); ok && phi.Block() == b && pred != nil {
+					moved := false
+					for i, p := range b.Preds {
+						if p == pred {
+							cond, moved = phi.Edges[i], true
+							break
+						}
+					}
+					if moved {
+						continue
+					}
+				}
+				break
+			}
+			onT, onF := excuse(cond)
+			t := eval(cond)
+			if neg {
+				onT, onF = onF, onT
+				t = t.not()
+			}
+			switch t {
 			case T:
-				dfs(b.Succs[0], ok || onT)
+				dfs(b.Succs[0], b, ok || onT)
 			case F:
-				dfs(b.Succs[1], ok || onF)
+				dfs(b.Succs[1], b, ok || onF)
 			default:
-				dfs(b.Succs[0], ok || onT)
-				dfs(b.Succs[1], ok || onF)
+				dfs(b.Succs[0], b, ok || onT)
+				dfs(b.Succs[1], b, ok || onF)
 			}
 			return
 		}
 		for _, s := range b.Succs {
-			dfs(s, ok)
+			dfs(s, b, ok)
 		}
 	}
-	dfs(fn.Blocks[0], false)
+	dfs(fn.Blocks[0], nil, false)
 	return bad
 }
 
@@ -534,9 +565,9 @@ func (a *A) ruleConditionArgsEveryRow() int {
 			k, _ := argIndex(c.Call.Args[0])
 			n++
 			bad := mustPassUnder(fn, func(in ssa.Instruction) bool { return in == ssa.Instruction(c) }, assume,
-				func(iff *ssa.If) (bool, bool) {
+				func(cond ssa.Value) (bool, bool) {
 					for _, o := range conds {
-						if o != c && iff.Cond == ssa.Value(o) {
+						if o != c && cond == ssa.Value(o) {
 							return true, false
 						}
 					}
